@@ -8,7 +8,7 @@
    examples and the correspondence check. *)
 From Coq Require Import ZArith String List Bool Lia.
 From Verif Require Import C17.Model C17.Spec C17.Mputil C17.Proofs C17.ProofsOpts C17.ProofsGeom
-     C17.ProofsRoute C17.Examples C17.ProofsWitness.
+     C17.ProofsRoute C17.ProofsJoin C17.Examples C17.ProofsWitness.
 From VerifGen Require Import GenTags.
 Import ListNotations.
 Open Scope Z_scope.
@@ -116,6 +116,20 @@ Theorem C17_route_preserves_segments : forall join ring_of o d r f,
   route_geom_ok d r f = true.
 Proof. exact route_preserves_segments. Qed.
 Print Assumptions C17_route_preserves_segments.
+
+(* the hypothesis holds of the executable Join used in the correspondence run (for every
+   undirected edge the occurrence counts of input and joined lines are equal), so for that
+   instance segment preservation is unconditional *)
+Theorem C17_join_conserves_edges_exec : join_conserves_edges Mputil.join.
+Proof. exact join_conserves_edges_exec. Qed.
+Print Assumptions C17_join_conserves_edges_exec.
+
+Theorem C17_route_preserves_segments_exec : forall o d r f,
+  String.eqb (tag_find (r_tags r) "type") "route" = true ->
+  snd (rel_result Mputil.join Mputil.ring_of o d r) = Some f ->
+  route_geom_ok d r f = true.
+Proof. exact (fun o d r f => route_preserves_segments Mputil.join Mputil.ring_of o d r f join_conserves_edges_exec). Qed.
+Print Assumptions C17_route_preserves_segments_exec.
 
 Example C17_route_nonvacuous :
   exists f, nth_error (convert Mputil.join Mputil.ring_of o0 d_rich) 0 = Some f /\
